@@ -362,12 +362,18 @@ CHECKS = {
             "min<=max in 0..6 x all operators (bare and under staticLimit), searchSubtree at every int index, and operator histories (3-8 operators on the same objects with "
             "read-only calls, clones and pickle round trips in between, checked after every step and replayed as a whole by runHistory); mutSemantic / cxSemantic on 9 GSGP sets (incl. the "
             "assertion on sets lacking lf/mul/add/sub) and random declaration histories (typed / untyped, renamings, pool reads, name clashes) against the whole state of the real class; "
-            "the statement is evaluated as an independent oracle.",
-            TB + "list slicing/slice assignment/issubclass; randint/randrange/choice contracts; deepcopy/pickle of a tree keep its node list (checked by the history replay); "
+            "the statement is evaluated as an independent oracle. Round 9 TRANSLATOR TIE: the bodies of PrimitiveTree.root / height / searchSubtree / __setitem__ (slice key) / "
+            "__str__ and gp.graph are re-read from the current deap/gp.py on every run, rendered as Lean definitions Gen.* (harness/py2lean_c11.py: imperative stack-machine sub-language, "
+            "for = fold that stops at the first exception, while = fuel-bounded loop, in-place mutation in state-passing style) and the kernel re-checks 7 theorems: Gen.PrimitiveTree_root_eq_model (= rootL), "
+            "_height_eq_model (= heightL), _searchSubtree_eq_model (= searchSubtreePy for EVERY Python int begin, incl. the wrap-around of begin < -len; _normalised is its begin >= -len half), "
+            "_setitem_slice_eq_model (= setSlice for start <= stop), _str_eq_model (= some (strBuilder l) for node lists whose terminals have arity 0) and Gen.graph_eq_model (= range(len), graphEdges, "
+            "enumerate graphLabels), so the C11/C12 theorems about the hand-written list-level models transfer to the code as it is.",
+            TB + "the rendering rules of harness/py2lean_c11.py (docstring), the prelude Core/GenPreludeC11.lean and the signature table of harness/props/c11_translate.py (declared types, loop bounds); "
+            "list slicing/slice assignment/issubclass; randint/randrange/choice contracts; deepcopy/pickle of a tree keep its node list (checked by the history replay); "
             "theorems speak about every result the generators return "
             "and gen_total/cx_total/cxlb_total/mut*_total/staticLimit_total prove that every well-typed tape of the stated length yields a result (no IndexError, termination); "
             "totality of a whole history is not stated as one theorem (it follows step by step from the per-operator totality theorems and the closure invariant).",
-            "Lean 4 proof over a hand-written model + tape-replay correspondence + oracle"),
+            "Lean 4 proof over a hand-written model + tape-replay correspondence + oracle + translator tie (definitions regenerated from source, kernel-checked equal to the model)"),
     "C12": ("partial",
             "Lean theorems (C12.str_eq_render, compileSrc_eq, tokens_render, fromString_eq_reparse, roundtrip, eval_roundtrip, adf_eval(+_two), compile_adf_independent) prove for all "
             "trees/arities that __str__'s stack machine prints the recursive text, that the tokenizer and the typed token loop of from_string parse it back to "
